@@ -47,6 +47,10 @@ def race(workers, seconds=1.2, rounds=4000, switch=1e-6):
                 bad[label] = f"round {n}: {str(got)[:160]} instead of {str(base[label])[:160]}"
         calls[0] += n
 
+    # error paths first, in this thread: whatever they leave behind (a lock taken and not
+    # released on the way out, a half-built cache entry) must not stop the others
+    for fn in failing_operations():
+        _call(fn)
     old = sys.getswitchinterval()
     sys.setswitchinterval(switch)
     try:
@@ -55,10 +59,38 @@ def race(workers, seconds=1.2, rounds=4000, switch=1e-6):
         for t in ths:
             t.start()
         for t in ths:
-            t.join(seconds + 30)
+            t.join(seconds + 20)
+        for (label, _fn), t in zip(live, ths):
+            if t.is_alive() and label not in bad:
+                bad[label] = ("did not finish: blocked for more than 20 s after its time was up (another thread "
+                              "went through an error path just before)")
     finally:
         sys.setswitchinterval(old)
     return sorted(bad.items()), calls[0]
+
+
+def failing_operations():
+    """Calls that end in an error (each a documented refusal)."""
+    import pyubx2
+
+    f = codec.ubx_frame
+    return [
+        lambda: pyubx2.cfgkey2name(0x60930001),            # size code outside 1..5
+        lambda: pyubx2.cfgkey2name(0x00000000),
+        lambda: pyubx2.cfgname2key("CFG_NO_SUCH_KEY"),
+        lambda: pyubx2.UBXMessage.config_set(1, 0, [("CFG_NO_SUCH_KEY", 1)]),
+        lambda: pyubx2.UBXMessage.config_set(1, 0, [(0x60930001, 1)]),
+        lambda: pyubx2.UBXReader.parse(f(b"\x06", b"\x8b", bytes([1, 0, 0, 0]) + (0x60930001).to_bytes(4, "little") + b"\x01")),
+        lambda: pyubx2.UBXReader.parse(f(b"\x05", b"\x01", b"\x06\x01")[:-1] + b"\x00"),
+        lambda: pyubx2.UBXReader.parse(f(b"\x77", b"\x01", b"\x01"), msgmode=1),
+        lambda: pyubx2.UBXReader.parse(f(b"\x01", b"\x35", bytes([0, 0, 0, 0, 1, 9, 0, 0]) + bytes(20))),   # group cut short
+        lambda: pyubx2.UBXMessage("CFG", "CFG-MSG", 1, msgClass=300),
+        lambda: pyubx2.UBXMessage("CFG", "CFG-PRT", 1, charLen=8),
+        lambda: pyubx2.UBXMessage("NAV", "NAV-SAT", 0, numSvs=2, gnssId_02="x"),
+        lambda: pyubx2.UBXMessage("FOO", "FOO-BAR", 0),
+        lambda: pyubx2.val2bytes(-1, "U001"),
+        lambda: pyubx2.val2bytes("x", "R004"),
+    ]
 
 
 def _call(fn):
